@@ -214,6 +214,12 @@ func (s *Sim) checkRelease(n *SendNode, what, name, md5 string) {
 			// earlier delivered version of the name
 			oracle = "released-on-startup-poll-for-earlier-version"
 		}
+		if transmitted && s.versionsInFlightTogether(s.sc.Send.Name, name) {
+			// the receiver did validate this version - and a part of the version
+			// it replaced, still streaming, altered the staged copy afterwards
+			// (spans.go; the known finding on versions in flight together)
+			oracle = "released-copy-altered-by-versions-in-flight-together"
+		}
 		s.violate(prop, oracle, "%s of source %s (content %s) but the receiving side holds no validated copy of that content (%s)", what, name, short(md5), where)
 		return
 	}
